@@ -127,6 +127,22 @@ func histExec(c core.Case) core.Case {
 				b = nil
 			}
 			r = map[string]any{"err": errClass(err), "b": core.B(b)}
+		case "touch": // a getter along the path: read-only, but it makes a deferred lazy field decode (that level only)
+			tm := o.m
+			for _, n := range core.List(s["at"]) {
+				tm = tm.Get(fieldByNumber(tm, core.Int(n))).Message()
+			}
+			_ = tm.IsValid()
+		case "marshalc": // Size, read every field, Marshal with the cached sizes: nothing was changed in between (C16)
+			mo := proto.MarshalOptions{Deterministic: core.Bool(s["det"]), AllowPartial: true}
+			mo.Size(o.m.Interface())
+			Project(o.m)
+			mo.UseCachedSize = true
+			b, err := mo.Marshal(o.m.Interface())
+			if err != nil {
+				b = nil
+			}
+			r = map[string]any{"err": errClass(err), "b": core.B(b)}
 		case "size":
 			mo := proto.MarshalOptions{Deterministic: core.Bool(s["det"]), AllowPartial: true}
 			n := mo.Size(o.m.Interface())
